@@ -19,6 +19,43 @@ open Percival.Model.Wipe Percival.Model.WipeLang Percival.Gen.Wipe
 
 /-! ## what the verdicts mean -/
 
+/-- `allConfigs`: the judgement holds for the statement list of *every* preprocessor configuration the
+    translator found (`#ifdef HWACCEL … #else … #endif` gives one list per branch), and there is one. -/
+theorem allConfigs_sound (cfgs : List (String × List Stmt)) (p : List Stmt → Bool) (h : allConfigs cfgs p = true) :
+    cfgs ≠ [] ∧ ∀ c ∈ cfgs, p c.2 = true := by
+  unfold allConfigs at h
+  simp only [Bool.and_eq_true, Bool.not_eq_eq_eq_not, Bool.not_true, List.isEmpty_eq_false_iff] at h
+  exact ⟨h.1, fun c hc => (List.all_eq_true.mp h.2) c hc⟩
+
+/-- a call statement of the body is among `callsOf` -/
+private theorem mem_callsOf (body : List Stmt) (dst fn : String) (args : List String) (fail : Option String)
+    (h : Stmt.call dst fn args fail ∈ body) : (dst, fn, args) ∈ callsOf body := by
+  induction body with
+  | nil => cases h
+  | cons s r ih =>
+    rcases List.mem_cons.mp h with rfl | hin
+    · simp [callsOf]
+    · cases s <;> simp [callsOf, ih hin]
+
+/-- `noHiddenRealloc`: no statement of the body calls `getline`, `getdelim`, `realloc` or `reallocarray`.
+    These are the library functions that may *move* a buffer: the old block — with the line that was read
+    into it, possibly the secret line — is released inside libc, unwiped, and no `free` shows in the
+    caller.  With none of them called, every block the function gives back to the allocator is given back
+    by a `free` statement of the translated source, where `freesAreWiped` can judge it. -/
+theorem noHiddenRealloc_sound (body : List Stmt) (h : noHiddenRealloc body = true) :
+    ∀ dst fn args fail, Stmt.call dst fn args fail ∈ body → fn ∉ mayReallocFns := by
+  intro dst fn args fail hin
+  have := (List.all_eq_true.mp h) _ (mem_callsOf body dst fn args fail hin)
+  simpa using this
+
+/-- `onlyHandledBy x allowed`: whatever is handed the object `x` is one of the `allowed` functions — so a
+    release of `x` can only happen through them, and each of them is judged separately. -/
+theorem onlyHandledBy_sound (x : String) (allowed : List String) (body : List Stmt) (h : onlyHandledBy x allowed body = true) :
+    ∀ dst fn args fail, Stmt.call dst fn args fail ∈ body → mentions x args = true → fn ∈ allowed := by
+  intro dst fn args fail hin hm
+  have := (List.all_eq_true.mp h) _ (mem_callsOf body dst fn args fail hin)
+  simpa [hm] using this
+
 /-- A block that is zeroed over its whole length holds none of its previous bytes:
     whatever it held, every byte handed to `free` is 0. -/
 theorem zeroed_block_has_no_secret (block : List UInt8) :
@@ -107,66 +144,96 @@ theorem dominatedByWipe_sound (x : String) (sizes : List String) (before : List 
       · exact ⟨by intro l'; simp, by intro d' f' a' fl' heq; cases heq⟩
       · exact hp s hin
 
-/-! ## the verdicts on the current source -/
+/-! ## the verdicts on the current source (every preprocessor configuration) -/
 
 /-- SHA-256, SHA-1, MD5: `*_Final` ends by zeroing the whole context object. -/
 theorem hash_contexts_wiped :
-    wipedDirect "ctx" "SHA256_CTX" sha256Final = true ∧
-    wipedDirect "ctx" "SHA1_CTX" sha1Final = true ∧
-    wipedDirect "ctx" "MD5_CTX" md5Final = true := by decide +kernel
+    allConfigs sha256FinalConfigs (wipedDirect "ctx" "SHA256_CTX") = true ∧
+    allConfigs sha1FinalConfigs (wipedDirect "ctx" "SHA1_CTX") = true ∧
+    allConfigs md5FinalConfigs (wipedDirect "ctx" "MD5_CTX") = true := by decide +kernel
 
 /-- HMAC contexts: HMAC-SHA256 zeroes the whole object; HMAC-SHA1 and HMAC-MD5 consist of exactly
     an inner and an outer hash context (struct layout from the headers), each finalised — hence
     zeroed by the theorem above — with nothing touching the object afterwards. -/
 theorem hmac_contexts_wiped :
-    wipedDirect "ctx" "HMAC_SHA256_CTX" hmacSha256Final = true ∧
+    allConfigs hmacSha256FinalConfigs (wipedDirect "ctx" "HMAC_SHA256_CTX") = true ∧
     hmacSha256CtxFields = [("SHA256_CTX", "ictx"), ("SHA256_CTX", "octx")] ∧
-    wipedByMembers "ctx" "SHA1_Final" (hmacSha1CtxFields.map (·.2)) hmacSha1Final = true ∧
+    allConfigs hmacSha1FinalConfigs (wipedByMembers "ctx" "SHA1_Final" (hmacSha1CtxFields.map (·.2))) = true ∧
     hmacSha1CtxFields = [("SHA1_CTX", "ictx"), ("SHA1_CTX", "octx")] ∧
-    wipedByMembers "ctx" "MD5_Final" (hmacMd5CtxFields.map (·.2)) hmacMd5Final = true ∧
+    allConfigs hmacMd5FinalConfigs (wipedByMembers "ctx" "MD5_Final" (hmacMd5CtxFields.map (·.2))) = true ∧
     hmacMd5CtxFields = [("MD5_CTX", "ictx"), ("MD5_CTX", "octx")] := by decide +kernel
 
 /-- The one-shot helpers zero their stack contexts too. -/
 theorem oneshot_contexts_wiped :
-    wipedDirect "&ctx" "SHA256_CTX" sha256Buf = true ∧
-    wipedDirect "&ctx" "HMAC_SHA256_CTX" hmacSha256Buf = true ∧
-    wipedDirect "stream" "struct crypto_aesctr" aesctrBuf = true := by decide +kernel
+    allConfigs sha256BufConfigs (wipedDirect "&ctx" "SHA256_CTX") = true ∧
+    allConfigs hmacSha256BufConfigs (wipedDirect "&ctx" "HMAC_SHA256_CTX") = true ∧
+    allConfigs aesctrBufConfigs (wipedDirect "stream" "struct crypto_aesctr") = true := by decide +kernel
 
-/-- Expanded AES keys (OpenSSL and AES-NI layouts): the block is zeroed over exactly the size it
-    was allocated with, immediately before `free`. -/
+/-- Expanded AES keys.  In every configuration (hardware support compiled in or not) the software
+    branch of `crypto_aes_key_free` — reached at run time whenever the accelerated code is not
+    selected — zeroes the block over exactly the size `crypto_aes_key_expand` allocated it with,
+    immediately before `free`; the only other things the key is handed to are the AES-NI / ARM
+    release functions, which do the same for their own layouts. -/
 theorem aes_keys_wiped_before_free :
-    freesSomething "key" aesKeyFree = true ∧
-    (∃ sz, mallocSize "kexp" aesKeyExpand = some sz ∧ freesAreWiped "key" [sz] aesKeyFree = true) ∧
-    freesSomething "key" aesKeyFreeAesni = true ∧
-    (∃ sz, mallocSize "kexp" aesKeyExpandAesni = some sz ∧ freesAreWiped "key" [sz] aesKeyFreeAesni = true) := by
+    allConfigs aesKeyFreeConfigs (freesSomething "key") = true ∧
+    (∃ sz, allConfigs aesKeyExpandConfigs (fun b => mallocSize "kexp" b == some sz) = true ∧
+           allConfigs aesKeyFreeConfigs (freesAreWiped "key" [sz]) = true) ∧
+    allConfigs aesKeyFreeConfigs (onlyHandledBy "key" aesKeyHandlers) = true ∧
+    allConfigs aesKeyFreeAesniConfigs (freesSomething "key") = true ∧
+    (∃ sz, allConfigs aesKeyExpandAesniConfigs (fun b => mallocSize "kexp" b == some sz) = true ∧
+           allConfigs aesKeyFreeAesniConfigs (freesAreWiped "key" [sz]) = true) ∧
+    allConfigs aesKeyFreeAesniConfigs (onlyHandledBy "key" ["insecure_memzero", "free"]) = true ∧
+    allConfigs aesKeyFreeArmConfigs (freesSomething "key") = true ∧
+    (∃ sz, allConfigs aesKeyExpandArmConfigs (fun b => mallocSize "kexp" b == some sz) = true ∧
+           allConfigs aesKeyFreeArmConfigs (freesAreWiped "key" [sz]) = true) ∧
+    allConfigs aesKeyFreeArmConfigs (onlyHandledBy "key" ["insecure_memzero", "free"]) = true := by
   refine ⟨by decide +kernel, ⟨"sizeof(AES_KEY)", by decide +kernel, by decide +kernel⟩, by decide +kernel,
-    ⟨"sizeof(struct crypto_aes_key_aesni)", by decide +kernel, by decide +kernel⟩⟩
+    by decide +kernel, ⟨"sizeof(struct crypto_aes_key_aesni)", by decide +kernel, by decide +kernel⟩, by decide +kernel,
+    by decide +kernel, ⟨"sizeof(struct crypto_aes_key_arm)", by decide +kernel, by decide +kernel⟩, by decide +kernel⟩
+
+/-- The build the harness observes is one of the judged configurations, and in it BOTH run-time
+    branches exist: the dispatch to the AES-NI release function and the software fall-through. -/
+theorem aes_key_free_dispatch_nonvacuous :
+    aesKeyFreeConfigs.head? = some ("CPUSUPPORT_X86_AESNI HWACCEL", aesKeyFree) ∧
+    2 ≤ aesKeyFreeConfigs.length ∧
+    (callsOf aesKeyFree).any (fun c => c.2.1 == "crypto_aes_key_free_aesni" && mentions "key" c.2.2) = true ∧
+    freesSomething "key" aesKeyFree = true := by decide +kernel
 
 /-- AES-CTR stream objects likewise. -/
 theorem aesctr_stream_wiped_before_free :
-    freesSomething "stream" aesctrFree = true ∧
-    (∃ sz, mallocSize "stream" aesctrAlloc = some sz ∧ freesAreWiped "stream" [sz] aesctrFree = true) :=
-  ⟨by decide +kernel, ⟨"sizeof(struct crypto_aesctr)", by decide +kernel, by decide +kernel⟩⟩
+    allConfigs aesctrFreeConfigs (freesSomething "stream") = true ∧
+    (∃ sz, allConfigs aesctrAllocConfigs (fun b => mallocSize "stream" b == some sz) = true ∧
+           allConfigs aesctrFreeConfigs (freesAreWiped "stream" [sz]) = true) ∧
+    allConfigs aesctrFreeConfigs (onlyHandledBy "stream" ["insecure_memzero", "free"]) = true :=
+  ⟨by decide +kernel, ⟨"sizeof(struct crypto_aesctr)", by decide +kernel, by decide +kernel⟩, by decide +kernel⟩
 
 /-- `aws_readkeys`: on every error exit the secret string is zeroed over its whole length
     before it is freed. -/
 theorem aws_secret_wiped_before_free :
-    freesSomething "*key_secret" awsReadkeys = true ∧
-    freesAreWiped "*key_secret" ["strlen(*key_secret)"] awsReadkeys = true := by decide +kernel
+    allConfigs awsReadkeysConfigs (freesSomething "*key_secret") = true ∧
+    allConfigs awsReadkeysConfigs (freesAreWiped "*key_secret" ["strlen(*key_secret)"]) = true := by decide +kernel
+
+/-- `aws_readkeys` never hands a line buffer to a function that may move it (see
+    `noHiddenRealloc_sound`): a line read after the secret line cannot push a copy of the secret
+    back to the allocator from inside libc. -/
+theorem aws_line_buffer_never_moved :
+    allConfigs awsReadkeysConfigs noHiddenRealloc = true := by decide +kernel
 
 /-- Diffie–Hellman: on all exit paths of `blinded_modexp` (success, each failing OpenSSL call, the
     entropy failure, the two result-length checks) every `BIGNUM` that holds the private exponent,
     the blinding value or anything computed from them is released with `BN_clear_free`, and none
     stays allocated; the wrappers add nothing secret of their own. -/
 theorem dh_secrets_cleared_on_every_path :
-    pathsClean ["priv"] blindedModexp = true ∧
-    pathsClean ["priv"] dhGeneratePub = true ∧
-    pathsClean ["priv"] dhCompute = true := by decide +kernel
+    allConfigs blindedModexpConfigs (pathsClean ["priv"]) = true ∧
+    allConfigs dhGeneratePubConfigs (pathsClean ["priv"]) = true ∧
+    allConfigs dhComputeConfigs (pathsClean ["priv"]) = true := by decide +kernel
 
-/-- non-vacuity: the ladder has 21 exit paths, 19 of which release at least one tainted object -/
+/-- non-vacuity: the ladder has many exit paths, and all but at most two of them (the failures before
+    anything secret exists) release at least one tainted object -/
 theorem dh_paths_nonvacuous :
-    (paths blindedModexp { tainted := ["priv"] } blindedModexp).length = 21 ∧
-    pathsWithTaintedRelease ["priv"] blindedModexp = 19 := by decide +kernel
+    10 ≤ (paths blindedModexp { tainted := ["priv"] } blindedModexp).length ∧
+    (paths blindedModexp { tainted := ["priv"] } blindedModexp).length ≤ pathsWithTaintedRelease ["priv"] blindedModexp + 2 := by
+  decide +kernel
 
 /-! ## the judgements do reject what they should (sanity examples) -/
 
@@ -177,5 +244,25 @@ example : freesAreWiped "key" ["sizeof(AES_KEY)"]
     [.call "" "insecure_memzero" ["key", "sizeof(AES_KEY)"] none, .label "out", .call "" "free" ["key"] none] = false := by decide
 example : wipedDirect "ctx" "SHA256_CTX"
     [.call "" "insecure_memzero" ["ctx", "sizeof(SHA256_CTX)"] none, .call "" "SHA256_Update" ["ctx", "x", "1"] none] = false := by decide
+/-- the wipe in the `#else` of `#ifdef HWACCEL`: the configuration with hardware support loses it -/
+example : allConfigs
+    [("HWACCEL", [.cond "key == NULL" "<return>", .cond "!(hwaccel == HW_X86_AESNI)" "<else1>",
+                  .call "" "crypto_aes_key_free_aesni" ["(void *)key"] none, .ret, .label "<else1>",
+                  .call "" "free" ["key"] none]),
+     ("", [.cond "key == NULL" "<return>", .call "" "insecure_memzero" ["key", "sizeof(AES_KEY)"] none,
+           .call "" "free" ["key"] none])]
+    (freesAreWiped "key" ["sizeof(AES_KEY)"]) = false := by decide
+/-- a line buffer grown by `getline` -/
+example : noHiddenRealloc [.call "" "getline" ["&buf", "&buflen", "f"] none] = false := by decide
+/-- a release hidden in the error block of a failing call is walked (out-of-line block, `goto` followed) -/
+example : pathsClean ["priv"]
+    [.call "priv_bn" "BN_bin2bn" ["priv", "32", "NULL"] (some "err0"),
+     .call "" "BN_add" ["priv_bn", "priv_bn", "x"] (some "<blk1>"),
+     .call "" "BN_clear_free" ["priv_bn"] none, .label "err0", .ret,
+     .label "<blk1>", .call "" "BN_free" ["priv_bn"] none, .goto "err0"] = false := by decide
+/-- a pointer found null on the jumping branch holds nothing -/
+example : pathsClean ["priv"]
+    [.call "b" "BN_bin2bn" ["priv", "32", "NULL"] none, .cond "b == NULL" "err0",
+     .call "" "BN_clear_free" ["b"] none, .label "err0", .ret] = true := by decide
 
 end Percival.C20
